@@ -4,7 +4,7 @@ CONSTANTS
   Calls = 1
   SetupNodes = 2
   MaxNodes = 3
-  Deadlines = {1, 2}
+  Deadlines = {2}
   MaxNow = 2
   WithValues = FALSE
   Deviation = "none"
